@@ -53,7 +53,13 @@ type job struct {
 	mk      func() templ.Component
 	failAt  int
 	handler bool // served through templ.Handler (buffered) into a ResponseWriter that yields on every call
+	mw      bool // served through the one shared CSS middleware (path = the name to render)
 }
+
+// one CSS middleware for the whole process, as a server has: requests through it must not see each other
+var sharedMW = templ.NewCSSMiddleware(http.HandlerFunc(func(w http.ResponseWriter, r *http.Request) {
+	templ.Handler(MWPage(strings.TrimPrefix(r.URL.Path, "/"))).ServeHTTP(w, r)
+}), registered())
 
 // respWriter is a slow client: every WriteHeader / Write is a scheduling point.
 type respWriter struct {
@@ -92,26 +98,28 @@ func failingAfter(text string) templ.Component {
 
 func jobs() map[string]job {
 	return map[string]job{
-		"pageA":       {"pageA", func() templ.Component { return Page("alice", []string{"a1", "a2"}) }, -1, false},
-		"pageB":       {"pageB", func() templ.Component { return Page("bob", []string{"b1"}) }, -1, false},
-		"bigA":        {"bigA", func() templ.Component { return Big("AAAA") }, -1, false},
-		"bigB":        {"bigB", func() templ.Component { return Big("BBBB") }, -1, false},
-		"smallA":      {"smallA", func() templ.Component { return Small("a") }, -1, false},
-		"smallB":      {"smallB", func() templ.Component { return Small("b") }, -1, false},
+		"pageA":       {"pageA", func() templ.Component { return Page("alice", []string{"a1", "a2"}) }, -1, false, false},
+		"pageB":       {"pageB", func() templ.Component { return Page("bob", []string{"b1"}) }, -1, false, false},
+		"bigA":        {"bigA", func() templ.Component { return Big("AAAA") }, -1, false, false},
+		"bigB":        {"bigB", func() templ.Component { return Big("BBBB") }, -1, false, false},
+		"smallA":      {"smallA", func() templ.Component { return Small("a") }, -1, false, false},
+		"smallB":      {"smallB", func() templ.Component { return Small("b") }, -1, false, false},
 		"handlerOK":   {name: "handlerOK", mk: func() templ.Component { return Big("AAAA") }, failAt: -1, handler: true},
 		"handlerFail": {name: "handlerFail", mk: func() templ.Component { return failingAfter(strings.Repeat("BBBB-", 60)) }, failAt: -1, handler: true},
-		"otherA":      {"otherA", func() templ.Component { return Other("from-the-second-file") }, -1, false},
-		"spreadA":     {"spreadA", func() templ.Component { return Spread("alice@example.com") }, -1, false},
-		"spreadB":     {"spreadB", func() templ.Component { return Spread("bob") }, -1, false},
+		"mwA":         {name: "mwA", failAt: -1, mw: true, mk: func() templ.Component { return nil }},
+		"mwB":         {name: "mwB", failAt: -1, mw: true, mk: func() templ.Component { return nil }},
+		"otherA":      {"otherA", func() templ.Component { return Other("from-the-second-file") }, -1, false, false},
+		"spreadA":     {"spreadA", func() templ.Component { return Spread("alice@example.com") }, -1, false, false},
+		"spreadB":     {"spreadB", func() templ.Component { return Spread("bob") }, -1, false, false},
 		// the same sanitisers with an accepted and a rejected value side by side
 		"kitchenA": {"kitchenA", func() templ.Component {
 			return Kitchen("red", "https://example.com/a", "serif", templ.Attributes{"data-x": "1", "data-y": "alice"})
-		}, -1, false},
+		}, -1, false, false},
 		"kitchenB": {"kitchenB", func() templ.Component {
 			return Kitchen("x}*{color:x", "data:text/html,<script>alert(1)</script>", "x}*{color:x, serif", templ.Attributes{"data-x": "2"})
-		}, -1, false},
-		"bigFail":  {"bigFail", func() templ.Component { return Big("FFFF") }, 40, false},
-		"pageFail": {"pageFail", func() templ.Component { return Page("carol", []string{"c1"}) }, 70, false},
+		}, -1, false, false},
+		"bigFail":  {"bigFail", func() templ.Component { return Big("FFFF") }, 40, false, false},
+		"pageFail": {"pageFail", func() templ.Component { return Page("carol", []string{"c1"}) }, 70, false, false},
 	}
 }
 
@@ -123,6 +131,11 @@ type outcome struct {
 func renderOne(j job) outcome {
 	if j.mk == nil {
 		vlib.Fatal("unknown job %q", j.name)
+	}
+	if j.mw {
+		w := &respWriter{h: http.Header{}}
+		sharedMW.ServeHTTP(w, httptest.NewRequest("GET", "/"+j.name, nil))
+		return outcome{out: fmt.Sprintf("%d|%s", w.status, w.body.String())}
 	}
 	if j.handler {
 		w := &respWriter{h: http.Header{}}
@@ -213,7 +226,7 @@ func devModeReady() bool { return templruntime.VerifDevMode() }
 
 func raceMode(ref map[string]outcome) {
 	all := jobs()
-	names := []string{"pageA", "pageB", "bigA", "bigB", "smallA", "smallB", "bigFail", "pageFail", "spreadA", "spreadB", "kitchenA", "kitchenB", "kitchenB", "kitchenA", "otherA", "smallA", "otherA", "handlerOK", "handlerFail"}
+	names := []string{"pageA", "pageB", "bigA", "bigB", "smallA", "smallB", "bigFail", "pageFail", "spreadA", "spreadB", "kitchenA", "kitchenB", "kitchenB", "kitchenA", "otherA", "smallA", "otherA", "handlerOK", "handlerFail", "mwA", "mwB", "mwA"}
 	var wg sync.WaitGroup
 	var mu sync.Mutex
 	mismatch := ""
@@ -277,6 +290,7 @@ func main() {
 		{"2 goroutines, page render fails midway next to a page render", [][]string{{"pageFail"}, {"pageB", "smallB"}}},
 		{"2 goroutines rendering spread attributes", [][]string{{"spreadA"}, {"spreadB"}}},
 		{"2 requests through the buffered HTTP handler, one of them failing, slow clients", [][]string{{"handlerOK"}, {"handlerFail", "handlerOK"}}},
+		{"3 requests through one shared CSS middleware (registered class, inline class, script template)", [][]string{{"mwA", "mwB"}, {"mwB"}}},
 	}
 	if dev {
 		scenarios = []scenario{
